@@ -16,6 +16,8 @@
 //                   (documented limitation, see REPORT.md; not part of the default jobs)
 #include "vf.hpp"
 #include "simulator/http_server.hpp"
+#include <typeinfo>
+#include <stdexcept>
 
 using namespace vf;
 
@@ -71,8 +73,13 @@ std::string show(std::string const& s, std::size_t cap = 200)
 // registered size, or written in a form the implementation accepts but the statement does not define (several ranges):
 // only what the statement fixes is demanded -- one response, framed by a content-length equal to the body sent, in
 // order -- plus, for a 206, that the bytes sent for positions inside the document are the document's bytes.
-enum Kind { K_HANDLER, K_CONTENT, K_RANGE, K_REDIRECT, K_UNKNOWN, K_STALL, K_MALFORMED, K_RANGE_OOB };
-char const* const kind_name[] = {"handler", "content", "range", "redirect", "unknown-path", "stalled-path", "malformed", "range-out-of-bounds"};
+enum Kind { K_HANDLER, K_CONTENT, K_RANGE, K_REDIRECT, K_UNKNOWN, K_STALL, K_MALFORMED, K_RANGE_OOB, K_RANGE_BAD };
+// K_RANGE_BAD: a complete request to registered content whose Range value is not "first-last" with first <= last
+// (open-ended, suffix, non-numeric, empty, over 64 bits, negative, first > last, absurdly long). Whether that is
+// "malformed input" or an answerable request is not stated, so either outcome is accepted: (a) one well-framed response
+// (any status, content-length == body) and the connection goes on by the usual rule, or (b) the connection is closed
+// without a response. In both cases nothing may escape from run() and the next client must be served.
+char const* const kind_name[] = {"handler", "content", "range", "redirect", "unknown-path", "stalled-path", "malformed", "range-out-of-bounds", "unparsable-range"};
 
 unsigned short const PORT = 8080;
 char const* const REDIRECT_TARGET = "/new/place?x=1";
@@ -81,6 +88,8 @@ struct Site
 {
 	int pad1 = 0, pad2 = 0; // body padding of the two handlers
 	std::int64_t fsize = 100; // size of the registered content
+	// --mode rangeprobe: the content generator returns nothing for a negative length instead of refusing it
+	bool lenient_gen = false;
 };
 
 char content_byte(std::int64_t i) { return char('A' + (i * 7 + i / 26) % 26); }
@@ -262,7 +271,7 @@ Req make_req(Kind k, Site const& site, std::string const& method, std::string co
 	r.text = method + " " + target + " HTTP/1.1\r\n";
 	if (!tag.empty()) r.text += "X-Tag: " + tag + "\r\n";
 	r.text += extra_hdrs;
-	if (k == K_RANGE || k == K_RANGE_OOB) r.text += fmt(range_fmt, int(ra), int(rb));
+	if (k == K_RANGE || k == K_RANGE_OOB || k == K_RANGE_BAD) r.text += fmt(range_fmt, int(ra), int(rb));
 	r.text += conn_hdr;
 	r.text += "\r\n";
 	r.exp.kind = k;
@@ -284,6 +293,7 @@ Req make_req(Kind k, Site const& site, std::string const& method, std::string co
 			if (judge_prefix) { r.exp.prefix_start = ra; r.exp.prefix_avail = std::max<std::int64_t>(0, site.fsize - ra); }
 			r.label += fmt("[%d-%d of %d,%s]", int(ra), int(rb), int(site.fsize), range_cls);
 			break;
+		case K_RANGE_BAD: r.exp.status = 0; r.exp.cls = range_cls; r.label += std::string("[") + range_cls + "]"; break;
 		case K_REDIRECT: r.exp.status = 301; r.exp.location = REDIRECT_TARGET; break;
 		case K_UNKNOWN: r.exp.status = 404; break;
 		default: break;
@@ -339,6 +349,25 @@ Req gen_req(Rng& g, Site const& site, std::string const& tag, bool small, int fo
 			std::int64_t const size = site.fsize;
 			std::int64_t a = g.range(0, size - 1), b = g.range(a, size - 1);
 			std::string const t = vary_target(g, "/file");
+			if (g.coin(3, 16))
+			{
+				// Range values that are not "first-last" with first <= last: either-or oracle (K_RANGE_BAD)
+				static char const* const bad[][2] = {
+					{"Range: bytes=%d-\r\n", "open-ended"}, {"Range: bytes=-%d\r\n", "suffix"}, {"Range: bytes=abc-def\r\n", "non-numeric"},
+					{"Range: bytes=%d-abc\r\n", "non-numeric-last"}, {"Range: bytes=\r\n", "empty"}, {"Range:\r\n", "empty-value"}, {"Range: bytes\r\n", "unit-only"},
+					{"Range: bytes=%d-99999999999999999999\r\n", "last-over-64-bits"}, {"Range: bytes=99999999999999999999-%d\r\n", "first-over-64-bits"},
+					{"Range: bytes=-%d-%d\r\n", "negative-first"}, {"Range: bytes=%d--7\r\n", "negative-last"},
+					{"Range: bytes=%d-99999999999\r\n", "absurdly-long"}, {"Range: bytes=%d-4294967301\r\n", "length-over-32-bits"},
+					{"Range: bytes=first-last\r\n", "non-numeric"}};
+				int const w = g.choose(16);
+				if (w >= 14)
+				{
+					// first > last (the content generator refuses a negative length, as std::string(len, c) would)
+					std::int64_t const hi = g.range(1, size + 20), lo = g.range(0, hi - 1);
+					return make_req(K_RANGE_BAD, site, method, t, tag, conn, close, extra, hi, lo, "Range: bytes=%d-%d\r\n", "first-after-last");
+				}
+				return make_req(K_RANGE_BAD, site, method, t, tag, conn, close, extra, a, b, bad[w][0], bad[w][1]);
+			}
 			switch (g.choose(13))
 			{
 				case 0: b = a; return make_req(K_RANGE, site, method, t, tag, conn, close, extra, a, b, f, "single-byte");
@@ -510,12 +539,39 @@ struct World
 		};
 		API(server->register_handler("/h1", mk("h1", site.pad1)));
 		API(server->register_handler("/dir/h2", mk("h2", site.pad2)));
-		API(server->register_content("/file", site.fsize, [](std::int64_t start, std::int64_t len) { return content_bytes(start, len); }));
+		bool const lenient = site.lenient_gen;
+		API(server->register_content("/file", site.fsize, [lenient](std::int64_t start, std::int64_t len) {
+			// like a generator built on std::string(len, c): a negative or absurd length is refused
+			if ((len < 0 && !lenient) || len > (std::int64_t(1) << 24)) throw std::length_error("content generator asked for an absurd length");
+			return content_bytes(start, len);
+		}));
 		API(server->register_redirect("/old", REDIRECT_TARGET));
 		API(server->register_stall_handler("/stall"));
 		runner->on_step = [this]() {
 			if (!stop_fired && sc.stop_at >= 0 && std::int64_t(M().steps) >= sc.stop_at) do_stop();
 		};
+	}
+
+	// nothing may escape from run(): an exception thrown by library code inside a handler unwinds the whole
+	// simulation (simulation::run() cancels everything and rethrows), i.e. every connection and every later client
+	void run_sim()
+	{
+		std::string what; bool escaped = false;
+		try { runner->run(); }
+		catch (std::exception const& e) { escaped = true; what = std::string(typeid(e).name()) + ": " + e.what(); }
+		catch (...) { escaped = true; what = "(not a std::exception)"; }
+		if (!escaped) return;
+		bool bad_range = false; std::string req;
+		for (auto& cp : sc.clients)
+			for (std::size_t i = 0; i < cp->reqs.size(); ++i)
+				if (cp->reqs[i].kind == K_RANGE_BAD && cp->pos >= cp->req_end[i]) { bad_range = true; req = cp->reqs[i].text; }
+		viol(bad_range ? "exception-escaped-run:after-unparsable-range" : "exception-escaped-run"
+			, "simulation::run() threw " + what + (bad_range ? "; a request sent before: \"" + show(req, 160) + "\"" : std::string())
+				+ "; the server and all its connections are gone, no later client can be served");
+		// the simulation was torn down by the unwinding: abandon this process, the driver resumes with the next case
+		if (g_quiet) g_quiet->report_on();
+		std::fflush(stdout);
+		_exit(77);
 	}
 
 	void do_stop()
@@ -681,6 +737,7 @@ struct World
 				viol("wrong-body:" + kn, who + fmt("206 whose first %zu body bytes are not the document's bytes from offset %d: \"%s\"", nchk, int(e.prefix_start), show(r.body, 80).c_str()));
 		}
 		if (e.kind == K_RANGE || e.kind == K_RANGE_OOB) R().count(("range_class_" + e.cls).c_str());
+		if (e.kind == K_RANGE_BAD) { R().count("unparsable_range_answered_with_framed_response"); R().count(("unparsable_range_answered_" + e.cls).c_str()); VLOG("  unparsable range answered: %s -> %s", show(c.reqs[i].text).c_str(), show(r.raw).c_str()); }
 		if (i > 0 && c.exp[i - 1].kind == K_RANGE_OOB) R().count("responses_verified_right_after_out_of_bounds_range");
 		R().count("responses_verified");
 		R().count((std::string("responses_verified_") + kind_name[e.kind]).c_str());
@@ -700,9 +757,23 @@ struct World
 		c.evaluated = true;
 		advance_framer(c);
 		std::string const who = fmt("client %d: ", c.id);
-		if (c.frame_bad)
-			viol("response-framing", who + fmt("after %zu well-framed response(s) the stream %s", c.frames.size(), c.frame_why.c_str()));
 		std::size_t const n = c.frames.size(), m = c.exp.size();
+		bool const at_bad_range = n < m && c.exp[n].kind == K_RANGE_BAD && c.pos >= c.req_end[n];
+		if (at_bad_range && !c.frame_bad && c.frame_pos == c.rx.size() && c.eof)
+		{
+			// outcome (b): everything before the unparsable Range was answered, then the connection was closed
+			for (std::size_t i = 0; i < n; ++i) compare(c, i);
+			R().count("unparsable_range_closed_without_response");
+			R().count(("unparsable_range_" + c.exp[n].cls).c_str());
+			if (n + 1 < c.reqs.size()) R().count("unparsable_range_with_pipelined_requests_behind");
+			R().count(strict ? "connections_judged_strictly" : "connections_judged_as_prefix_only");
+			if (strict) R().count("connections_closed_by_server_verified");
+			return;
+		}
+		if (c.frame_bad)
+			viol(at_bad_range ? "unparsable-range:ill-framed-response" : "response-framing"
+				, who + fmt("after %zu well-framed response(s) the stream %s%s", c.frames.size(), c.frame_why.c_str()
+					, at_bad_range ? (" (request \"" + show(c.reqs[n].text, 120) + "\")").c_str() : ""));
 		for (std::size_t i = 0; i < std::min(n, m); ++i) compare(c, i);
 		bool const trailing = !c.frame_bad && c.frame_pos < c.rx.size();
 		if (n > m || (n == m && trailing))
@@ -717,7 +788,13 @@ struct World
 		}
 		if (strict)
 		{
-			if (n < m)
+			if (n < m && at_bad_range)
+			{
+				if (!c.frame_bad)
+					viol(trailing ? "unparsable-range:ill-framed-response" : "unparsable-range:neither-answered-nor-closed"
+						, who + fmt("request %zu (%s) \"%s\" got neither a complete well-framed response nor a close by quiescence", n, c.reqs[n].label.c_str(), show(c.reqs[n].text, 120).c_str()));
+			}
+			else if (n < m)
 				viol(trailing ? "response-truncated" : "response-count:missing"
 					, who + fmt("%zu of %zu expected responses received at quiescence (%zu bytes%s); first unanswered: %s \"%s\"", n, m, c.rx.size()
 						, trailing ? ", the last one incomplete" : "", c.reqs[n].label.c_str(), show(c.reqs[n].text, 80).c_str()));
@@ -788,7 +865,7 @@ struct World
 				acted = true;
 			}
 			if (!acted) break;
-			runner->run();
+			run_sim();
 		}
 		// ---- successive clients: everybody must have been accepted, unless the server is (by its
 		// design) stuck on a stalled request or was stopped
@@ -840,7 +917,12 @@ struct World
 							"having received %zu of a %zu-byte response (2 x MSS = %d)", c.id, last_accepted->id, last_accepted->rx.size(), parked_resp, 2 * sc.mtu));
 					continue;
 				}
-				viol("next-client-not-accepted", fmt("client %d: connect still unanswered at quiescence (%s)", c.id, prev.c_str()));
+				bool after_bad_range = false;
+				if (before)
+					for (std::size_t i = 0; i < before->reqs.size(); ++i)
+						if (before->reqs[i].kind == K_RANGE_BAD && before->pos >= before->req_end[i]) after_bad_range = true;
+				viol(after_bad_range ? "next-client-not-accepted:after-unparsable-range" : "next-client-not-accepted"
+					, fmt("client %d: connect still unanswered at quiescence (%s)", c.id, prev.c_str()));
 			}
 		}
 		if (wedged) R().count("cases_with_server_parked_on_stalled_request");
@@ -848,7 +930,7 @@ struct World
 		// ---- stop()
 		if (sc.stop_at >= 0)
 		{
-			if (!stop_fired) { do_stop(); R().count("stops_at_idle_after_all_clients"); runner->run(); }
+			if (!stop_fired) { do_stop(); R().count("stops_at_idle_after_all_clients"); run_sim(); }
 			else R().count("stops_mid_scenario");
 			R().count("stops");
 			// 1. connects are refused
@@ -856,7 +938,7 @@ struct World
 			probe->id = 99;
 			finish_script(*probe);
 			start_client(*probe);
-			runner->run();
+			run_sim();
 			if (probe->connected)
 				viol("connect-after-stop-accepted", "a connect made after stop() (and quiescence) was accepted");
 			else if (!probe->conn_failed)
@@ -872,7 +954,7 @@ struct World
 			if (ec)
 				viol("port-not-free-after-stop", fmt("binding a fresh acceptor to the server's port after stop() fails: %s", ec.message().c_str()));
 			else R().count("ports_rebound_after_stop");
-			runner->run();
+			run_sim();
 		}
 		R().count("handler_invocations", handler_calls);
 		R().count("handler_steps", M().steps);
@@ -889,7 +971,7 @@ struct World
 Req simple_req(Site const& site, Kind k, char const* target, char const* tag, bool close, std::int64_t ra = 0, std::int64_t rb = 0)
 { return make_req(k, site, "GET", target, tag, close ? "Connection: close\r\n" : "", close, "", ra, rb, "Range: bytes=%d-%d\r\n", k == K_RANGE_OOB ? "ends-beyond-size" : "in-bounds"); }
 
-int const N_CUT_SCEN = 9;
+int const N_CUT_SCEN = 10;
 
 // client 0 carries the requests under test; client 1 follows to see that the server still serves
 void build_short_scenario(int s, Scenario& sc)
@@ -910,6 +992,7 @@ void build_short_scenario(int s, Scenario& sc)
 		case 5: { Req b; b.kind = K_MALFORMED; b.text = "BOGUS\r\n\r\n"; b.label = "malformed"; c0->reqs = {simple_req(st, K_HANDLER, "/h1", "a", false), b, simple_req(st, K_HANDLER, "/h1", "b", false)}; break; }
 		case 6: sc.mtu = 7; c0->reqs = {simple_req(st, K_HANDLER, "/h1", "a", false), simple_req(st, K_HANDLER, "/h1", "b", false), simple_req(st, K_CONTENT, "/file", "", false)}; break;
 		case 8: c0->reqs = {simple_req(st, K_RANGE_OOB, "/file", "", false, 30, 49), simple_req(st, K_HANDLER, "/h1", "b", false)}; break; // range beyond the 40-byte document, then a pipelined request
+		case 9: c0->reqs = {simple_req(st, K_HANDLER, "/h1", "a", false), make_req(K_RANGE_BAD, st, "GET", "/file", "", "", false, "", 5, 0, "Range: bytes=%d-\r\n", "open-ended"), simple_req(st, K_HANDLER, "/h1", "b", false)}; break; // open-ended Range between two pipelined requests
 		default: c0->reqs = {simple_req(st, K_HANDLER, "/h1", "a", false)}; c0->policy = P_EOF_PARTIAL; c0->tail = "GET /h1 HTTP/1.1\r\n\r"; break;
 	}
 	c0->depth = 1000;
@@ -1019,6 +1102,8 @@ void run_case(Args const& a, std::uint64_t c)
 		return;
 	}
 	bool const abandon_mode = a.mode == "abandon";
+	// --mode rangeprobe (not a default job): first > last with a content generator that tolerates a negative length
+	bool const rangeprobe = a.mode == "rangeprobe";
 	Rng g(hcomb(hcomb(a.seed, 0xC16), c));
 	Scenario sc;
 	sc.keepalive = g.coin(3, 4);
@@ -1043,6 +1128,16 @@ void run_case(Args const& a, std::uint64_t c)
 			c->policy = P_ABANDON; c->reqs.clear(); c->tail.clear();
 			sc.site.pad2 = 3 * sc.mtu + int(g.range(0, 4000));
 			c->reqs.push_back(make_req(K_HANDLER, sc.site, "GET", "/dir/h2", "big", "", false, ""));
+			finish_script(*c); apply_model(*c, sc.keepalive); gen_cuts(g, *c);
+		}
+		if (rangeprobe && i == 0)
+		{
+			sc.site.lenient_gen = true;
+			c->policy = P_NORMAL; c->reqs.clear(); c->tail.clear();
+			std::int64_t const hi = g.range(1, sc.site.fsize + 20), lo = g.range(0, hi - 1);
+			c->reqs.push_back(make_req(K_HANDLER, sc.site, "GET", "/h1", "a", "", false, ""));
+			c->reqs.push_back(make_req(K_RANGE_BAD, sc.site, "GET", "/file", "", "", false, "", hi, lo, "Range: bytes=%d-%d\r\n", "first-after-last"));
+			c->reqs.push_back(make_req(K_HANDLER, sc.site, "GET", "/h1", "b", "", false, ""));
 			finish_script(*c); apply_model(*c, sc.keepalive); gen_cuts(g, *c);
 		}
 		if (c->end_state == E_STALLED) stalled = true;
